@@ -112,7 +112,13 @@ macro_rules! vfail_if {
 #[macro_export]
 macro_rules! note {
     ($ctx:expr, $($fmt:tt)+) => {
-        if $ctx.tracing { $ctx.trace.push(format!($($fmt)+)); }
+        if $ctx.tracing {
+            let __line = format!($($fmt)+);
+            if $ctx.echo {
+                eprintln!("[case] {}", __line);
+            }
+            $ctx.trace.push(__line);
+        }
     };
 }
 
@@ -125,6 +131,8 @@ pub struct Ctx {
     /// Set by the target when the case is outside the property's domain.
     pub discard: Option<&'static str>,
     pub tracing: bool,
+    /// print trace lines to stderr as they are produced (replay mode: survives an abort)
+    pub echo: bool,
     pub trace: Vec<String>,
     /// Size hint: 0 = quick, 1 = thorough (targets may use larger structures).
     pub tier: u8,
@@ -141,6 +149,7 @@ impl Ctx {
             nontrivial: false,
             discard: None,
             tracing,
+            echo: false,
             trace: Vec::new(),
             tier,
             param,
@@ -209,7 +218,12 @@ pub struct Executed {
 
 /// Runs one case through a target and classifies the result.
 pub fn execute(t: &Target, bytes: &[u8], tracing: bool, tier: u8, param: u64) -> Executed {
+    execute_opts(t, bytes, tracing, false, tier, param)
+}
+
+pub fn execute_opts(t: &Target, bytes: &[u8], tracing: bool, echo: bool, tier: u8, param: u64) -> Executed {
     let mut ctx = Ctx::new(tracing, tier, param);
+    ctx.echo = echo;
     let mut src = Src::new(bytes);
     let res = {
         let ctx_ref = &mut ctx;
